@@ -127,6 +127,9 @@ func Prepare(t *testing.T, tag string, o Options) (*pipeline.Session, []*Built) 
 			if !out.Accepted && out.Failure == "" {
 				stats.Class("design-rejected-by-goa")
 				stats.Note("rejected: %s", strings.Join(out.Rejected, "; "))
+				if i >= len(designs)-len(o.Extra) && ReplayDir() == "" {
+					t.Errorf("INCONCLUSIVE: the fixed design %s is rejected by goa: %s", d.API.Name, strings.Join(out.Rejected, "; "))
+				}
 				return
 			}
 			if out.Failure != "" {
